@@ -872,7 +872,9 @@ func grid(thorough bool) []caseSpec {
 			}
 		}
 	}
-	return append(out, prefixGrid(thorough)...)
+	// the sub-grid with the megabyte batches goes first: better balance over
+	// the workers, and a soft-deadline cut never lands on it
+	return append(prefixGrid(thorough), out...)
 }
 
 // prefixGrid: the compact length prefix sub-grid. Uncompressed batch lengths
